@@ -104,7 +104,7 @@ def shard(ctx):
     o = gen.Opts(types=True, calls=True, msgs=True, max_rules=4, max_lines=3, default=True)
     n = 22 if ctx.quick else 520
     for t in range(n):
-        doc = gen.gen_doc(rng)
+        doc = gen.gen_doc(rng) if t % 6 != 5 else gen.gen_tf_doc(rng)     # every 6th: Terraform-plan-shaped (own console view)
         docs = json.dumps(doc)
         f = gen.gen_file(rng, doc, o)
         if t % 7 == 3:
